@@ -113,6 +113,22 @@ def opCum (kv : KV) : Option String := do
   let spec := if skipna != 0 then showOptVals (specCum op k rows) else "na"
   pure s!"model={showOptVals model} spec={spec}"
 
+def opRoll (kv : KV) : Option String := do
+  let op ← parseRollOp (← get kv "op")
+  let k ← parseKind (← get kv "kind")
+  let w ← parseNat (← get kv "window")
+  let minp ← parseNat (← get kv "minp")
+  let codes ← parseIntList (← get kv "codes")
+  let vals ← parseValList (← get kv "vals")
+  let mask ← parseMask (← get kv "mask")
+  if codes.length ≠ vals.length || w == 0 then none
+  let sel ← match mask with
+    | .none => some (List.replicate codes.length true)
+    | .bool m => if m.length = codes.length then some m else none
+    | _ => none
+  let rows := (codes.zip (vals.zip sel)).map fun (c, v, s) => (⟨c, v, s⟩ : CRow)
+  pure s!"model={showRCells (rolling k op w minp rows)} spec={showRCells (specRolling k op w minp rows)}"
+
 def opScalar (kv : KV) : Option String := do
   let fn ← get kv "fn"
   let k ← parseKind (← get kv "kind")
@@ -135,6 +151,7 @@ def step (line : String) : String :=
       | "fact" => opFact kv
       | "nth" => opNth kv
       | "cum" => opCum kv
+      | "roll" => opRoll kv
       | "firstlast" => opFirstLast kv
       | "mono" => opMono kv
       | _ => none
